@@ -655,8 +655,21 @@ impl Check for TrioHistory {
                 }
                 Op::Swap { user, from, to, amt } => {
                     if from == to {
-                        continue;
-                    }
+                        // a swap of an asset for itself: refused (then nothing may change) or judged like any other step
+                        let usr = tw.user(*user);
+                        let i = *from as usize;
+                        let amount = resolve(amt, before.reserves[i], tw.w.bal(&tw.infos[i], &usr)).max(1);
+                        let snap0 = tw.w.snapshot();
+                        let r = tw.swap(&usr, i, i, amount, None, Some(dec(500_000_000_000_000_000)), None);
+                        rec.class("swap_same_asset_attempt");
+                        if r.is_err() {
+                            let snap1 = tw.w.snapshot();
+                            ensure!(snap1 == snap0, "step {step}: a refused swap of asset {i} for itself changed the world: {}", snap0.diff(&snap1));
+                            continue;
+                        }
+                        // accepted: whatever it did is judged by the solvency / D-per-LP clauses below
+                        check_value = true;
+                    } else {
                     let usr = tw.user(*user);
                     let (fi, ti) = (*from as usize, *to as usize);
                     let amount = resolve(amt, before.reserves[fi], tw.w.bal(&tw.infos[fi], &usr)).max(1);
@@ -704,6 +717,7 @@ impl Check for TrioHistory {
                         check_value = true;
                     } else {
                         rec.class("swap_rejected");
+                    }
                     }
                 }
                 Op::SwapThereAndBack { user, from, to, amt } => {
